@@ -106,7 +106,7 @@ def _function_signature(b):
     from vlib import expect
     if b.prog['route'] in ('self_method', 'self_attr', 'classmethod_cls', 'self_shadow_nested'):
         return signatures.signature(b.target.__func__)
-    if b.prog['route'] in ('param', 'param_shadow_lambda'):
+    if b.prog['route'] in ('param', 'param_shadow_lambda', 'param_shadow_kwonly', 'param_default'):
         return signatures.signature(b.target.func)
     return expect._own_def_signature(b.wfunc) if hasattr(b.wfunc, '__code__') else signatures.signature(b.wfunc)
 
@@ -144,7 +144,7 @@ def calls_role_inconsistent(b):
     try:
         if b.prog['route'] in ('self_method', 'self_attr', 'classmethod_cls', 'self_shadow_nested'):
             fsig = signatures.signature(b.target.__func__)
-        elif b.prog['route'] in ('param', 'param_shadow_lambda'):
+        elif b.prog['route'] in ('param', 'param_shadow_lambda', 'param_shadow_kwonly', 'param_default'):
             fsig = signatures.signature(b.target.func)
         else:
             fsig = expect._own_def_signature(b.wfunc) if hasattr(b.wfunc, '__code__') else signatures.signature(b.wfunc)
@@ -353,6 +353,9 @@ def run(ctx):
     # nested scopes and default-value positions (calls the walker defers or could overlook)
     tasks += [(s + 900, n // 64, {'ctxs': progs.NESTED_CTXS + ('lambda_default', 'return'), 'allow_taints': False,
                                   'routes': ('global', 'closure', 'param', 'self_method', 'attr')})
+              for s in ctx.shard_seeds(16)]
+    # nested scopes with taint statements between the definition and the call of the nested function
+    tasks += [(s + 1100, n // 64, {'ctxs': progs.NESTED_CTXS, 'routes': ('global', 'closure', 'self_method', 'attr'), 'max_calls': 2})
               for s in ctx.shard_seeds(16)]
     total.merge(ctx.pmap(shard_hyp, tasks))
     return total
